@@ -40,6 +40,7 @@ let run_case (c : case) =
   let kind = ref None in
   let state = ref None in            (* (solver, prog state) *)
   let stopped = ref false in
+  let last_ps = ref None in
   (* Sat.Prog.solve hands the oracle [List.rev] of the clause list (quadratic in Coq's stdlib): a
      session with thousands of solve calls - only a run-away loop of the implementation produces one
      within these histories - is not replayed; the oracle judges such a case on its own *)
@@ -49,7 +50,7 @@ let run_case (c : case) =
     | None -> out "not-modelled"; stopped := true
     | Some k -> (
         match Dynamic.dyn_new leqb k (Prog.init_st Prog.CadicalLike) with
-        | Prog.Done (s, ps) -> print_new_events ps; state := Some (s, ps)
+        | Prog.Done (s, ps) -> print_new_events ps; state := Some (s, ps); last_ps := Some ps
         | r -> print_new_events (Prog.final_st r); out "panic constructor"; stopped := true) in
   Stdlib.List.iter
     (fun toks ->
@@ -82,6 +83,7 @@ let run_case (c : case) =
                 let r = Dynamic.dyn_query oracle leqb (nat_of_int !thr) fuel s (D_static.query_of q) (cert = "cert")
                     (nat_of_int (int_of_string label)) ps in
                 print_new_events (Prog.final_st r);
+                last_ps := Some (Prog.final_st r);
                 match r with
                 | Prog.Done ((s', (b, ce)), ps') ->
                     out (D_static.outcome_line s'.Dynamic.s_af (Solvers.OAcc (b, ce)));
@@ -91,6 +93,17 @@ let run_case (c : case) =
                 | Prog.OutOfFuel _ -> out "outoffuel"; stopped := true))
         | _ -> ())
     (ins c);
+  (* the hypothesis [valid_oracle] of the C08 functional theorems, discharged on this very run: every
+     recorded Sat model satisfies the clauses of the shared session so far and the assumptions of its
+     call; every recorded Unsat answer is confirmed by the verified reference solver when the instance
+     is small enough (the limits are raised for this mode: the selector-guarded instances are easy) *)
+  (match !last_ps with
+   | Some ps when not !stopped || true ->
+       let keep_v = !D_static.unsat_limit and keep_c = !D_static.unsat_clause_limit in
+       D_static.unsat_limit := 64; D_static.unsat_clause_limit := 2500;
+       D_static.validate_log (Stdlib.List.rev ps.Prog.rlog);
+       D_static.unsat_limit := keep_v; D_static.unsat_clause_limit := keep_c
+   | _ -> ());
   end_case ()
 
 let run path = Stdlib.List.iter run_case (read_cases path); flush_out ()
